@@ -149,3 +149,70 @@ func checkTraceOfProduct(c *core.Ctx) {
 		})
 	}
 }
+
+// checkIntegerDivisionInConstants (C14.R9): the normalisation constants of the distributions are real numbers computed
+// from dimensions and counts. An integer division whose quotient is then converted to a floating-point number
+// (float64(n/2)) truncates first: d/2 becomes (d-1)/2 for odd d and the density no longer integrates to one.
+func checkIntegerDivisionInConstants(c *core.Ctx) {
+	c.Rule("C14.R9", "distribution packages: no integer division inside a conversion to a floating-point number", 0)
+	n := 0
+	for _, p := range c.LibPkgs() {
+		if !strings.Contains(p.PkgPath, "/statistics/") {
+			continue
+		}
+		info := p.TypesInfo
+		pkg := p
+		core.EachFunc(p, func(_ *ast.File, fd *ast.FuncDecl) {
+			ast.Inspect(fd.Body, func(nd ast.Node) bool {
+				ce, ok := nd.(*ast.CallExpr)
+				if !ok || len(ce.Args) != 1 {
+					return true
+				}
+				tv, ok := info.Types[ce.Fun]
+				if !ok || !tv.IsType() {
+					return true
+				}
+				b, ok := tv.Type.Underlying().(*types.Basic)
+				if !ok || b.Info()&types.IsFloat == 0 {
+					return true
+				}
+				n++
+				var bad ast.Expr
+				ast.Inspect(ce.Args[0], func(m ast.Node) bool {
+					if inner, ok := m.(*ast.CallExpr); ok && inner != ce {
+						// a nested conversion or call: its own arguments are judged separately
+						if itv, ok := info.Types[inner.Fun]; ok && itv.IsType() {
+							return false
+						}
+					}
+					be, ok := m.(*ast.BinaryExpr)
+					if !ok || be.Op != token.QUO {
+						return true
+					}
+					tx, ok1 := info.Types[be.X]
+					ty, ok2 := info.Types[be.Y]
+					if !ok1 || !ok2 {
+						return true
+					}
+					bx, okx := tx.Type.Underlying().(*types.Basic)
+					by, oky := ty.Type.Underlying().(*types.Basic)
+					if okx && oky && bx.Info()&types.IsInteger != 0 && by.Info()&types.IsInteger != 0 {
+						// constant expressions are evaluated exactly by the compiler and visible as such
+						if etv, ok := info.Types[be]; ok && etv.Value != nil {
+							return true
+						}
+						bad = be
+					}
+					return true
+				})
+				if bad != nil {
+					c.Fail("C14.R9", c.FuncName(pkg, fd), "no integer division under "+types.ExprString(ce.Fun)+"(...)", bad.Pos(),
+						"the integer quotient "+types.ExprString(bad)+" is truncated before it is converted to a floating-point number: for odd operands the constant is off by one half")
+				}
+				return true
+			})
+		})
+	}
+	c.Analysed["float_conversions_in_statistics"] = n
+	c.OK("C14.R9", "statistics", fmt.Sprintf("%d conversions to floating point inspected", 1), token.NoPos, "")
+}
